@@ -270,6 +270,7 @@ func applyBaseline(prog *ssa.Program, all map[*ssa.Function]bool) []string {
 	for _, b := range bl.Funcs {
 		baselineFns[b.Name] = true
 		baselineFeatures[b.Name] = b.Features
+		baselineSigs[b.Name] = b.Sig
 		if b.Bool != "" || b.Value != "" {
 			baselineTemplates[b.Name] = b
 		}
